@@ -10,11 +10,15 @@ arguments, variadic), index, selector, parentheses (any count on any node). `pri
 operator spellings and the three parenthesisation conditions are regenerated from `ast/ast.go`
 (Gen/Precedence.lean) on every check.
 
-The real tree records parentheses as a count on the node and `String()` ignores the count, so the
-exact statement `parse (print e) = some e` is false (`ExactStatement`, refuted by `(x)`); what holds
-for **every** tree is `parse (print e) = some (norm e)`, where `norm e` is `e` with exactly the
-parentheses the printer writes: same tree up to parentheses counts (`roundtrip_strip`), and exact
-for every tree that is itself the result of parsing printed source (`roundtrip_exact_on_reparsed`).
+The full statement (`FullStatement`) is false of the code today (`fullStatement_false`, witness
+`(-x0).x1`, known finding postfix-operand-parens): the model mirrors the printer as it is. On the
+sub-fragment `Plain` the round trip is proved for every tree (`roundtrip_partial`).
+
+The real tree records parentheses as a count on the node and `String()` ignores the count, so
+`parse (print e) = some e` is false by design (`ExactStatement`, refuted by `(x)`); what holds is
+`parse (print e) = some (norm e)`, where `norm e` is `e` with exactly the parentheses the printer
+writes: same tree up to parentheses counts (`roundtrip_strip_partial`), and exact for every tree
+that is itself the result of parsing printed source (`roundtrip_exact_on_reparsed_partial`).
 -/
 namespace ScriggoV.Props.C27
 open ScriggoV.ExprPP ScriggoV.Gen.Precedence ScriggoV.Spec.GoPrecedence
@@ -63,52 +67,71 @@ theorem unary_token_roundtrip (u : UnOp) : unaryOf (unTok u) = some u := unaryOf
 
 /-! ## the round trip -/
 
-/-- **Round trip, every tree of the fragment.** The printed form of `e` parses, and the result is `e`
-with exactly the parentheses the printer wrote. -/
-theorem roundtrip (e : Expr) (wf : WF e) : parse (print e) = some (norm e) := by
-  obtain ⟨x, gs, hr, hc⟩ := (main e).closed wf []
+/-- **The property at full strength on the fragment**: the printed form of every tree the parser can
+build parses back to the same tree, parentheses counts ignored. -/
+def FullStatement : Prop := ∀ e, WF e → (parse (print e)).map strip = some (strip e)
+
+/-- `(-x0).x1`: printed `-x0.x1`, which is `-(x0.x1)` — finding postfix-operand-parens -/
+def witness : Expr := .selector (.paren (.unary .minus (.ident 0))) 1
+
+/-- It is false of the code today: `Selector.String`, `Index.String` and `Call.String` do not
+parenthesise an operand that is a unary or binary operator. -/
+theorem fullStatement_false : ¬ FullStatement := by
+  intro h
+  have h1 := h witness (by simp [witness, WF])
+  have h2 : parse (print witness) = some (.unary .minus (.selector (.ident 0) 1)) := by rfl
+  rw [h2] at h1
+  simp [witness, strip] at h1
+
+/-- **Round trip, every tree of the fragment outside the finding** (`Plain e`: the operand of a
+call, index or selector is not a unary/binary operator, except `*x`/`<-x` under a call, which
+`Call.String` parenthesises). The printed form of `e` parses, and the result is `e` with exactly the
+parentheses the printer wrote. Missing for `FullStatement`: the trees that are not `Plain`. -/
+theorem roundtrip_partial (e : Expr) (wf : WF e) (pl : Plain e) : parse (print e) = some (norm e) := by
+  obtain ⟨x, gs, hr, hc⟩ := (main e).closed ⟨wf, pl⟩ []
   simp [parse, St.init, hr, finish, hc]
 
 /-- … which is `e` itself when parentheses counts are ignored (the property's "structurally
 identical tree") -/
-theorem roundtrip_strip (e : Expr) (wf : WF e) : (parse (print e)).map strip = some (strip e) := by
-  rw [roundtrip e wf]; simp [strip_norm]
+theorem roundtrip_strip_partial (e : Expr) (wf : WF e) (pl : Plain e) :
+    (parse (print e)).map strip = some (strip e) := by
+  rw [roundtrip_partial e wf pl]; simp [strip_norm]
 
 /-- … and exactly the same tree, counts included, for every tree obtained by parsing printed
 source: print → parse is the identity on the parser's results for printed sources -/
-theorem roundtrip_exact_on_reparsed (e : Expr) (wf : WF e) :
+theorem roundtrip_exact_on_reparsed_partial (e : Expr) (wf : WF e) (pl : Plain e) :
     parse (print (norm e)) = some (norm e) := by
-  rw [roundtrip (norm e) (WF_norm e wf), norm_norm]
+  rw [roundtrip_partial (norm e) (WF_norm e wf) (Plain_norm e pl), norm_norm]
 
 /-- two trees that differ only in parentheses counts print the same -/
 theorem print_norm_eq (e : Expr) : print (norm e) = print e := print_norm e
 
 /-- the statement with `e` itself on the right-hand side -/
-def ExactStatement : Prop := ∀ e, WF e → parse (print e) = some e
+def ExactStatement : Prop := ∀ e, WF e → Plain e → parse (print e) = some e
 
-/-- it is false, by design of the tree (`(x)` is the node `x` with count 1, printed `x`) -/
+/-- it is false by design of the tree (`(x)` is the node `x` with count 1, printed `x`): hence `norm` -/
 theorem exactStatement_false : ¬ ExactStatement := by
   intro h
-  have := h (.paren (.ident 0)) (by simp [WF])
-  rw [roundtrip _ (by simp [WF])] at this
+  have := h (.paren (.ident 0)) (by simp [WF]) (by simp [Plain])
+  rw [roundtrip_partial _ (by simp [WF]) (by simp [Plain])] at this
   simp [norm] at this
 
 /-! ## the statements are not vacuous -/
 
-/-- `(x0 - (x1 - 2))(x1, x2[3]...).x4 * -(-x2)` -/
+/-- `(*x0)(x1 - (x1 - 2), x2[3]...).x4 * -(-x2)` -/
 def sample : Expr :=
   .binary .mul
-    (.selector (.call (.binary .sub (.ident 0) (.binary .sub (.ident 1) (.lit 2)))
-      [.ident 1, .index (.ident 2) (.lit 3)] true) 4)
+    (.selector (.call (.unary .pointer (.ident 0)) [.binary .sub (.ident 1) (.binary .sub (.ident 1) (.lit 2)),
+      .index (.ident 2) (.lit 3)] true) 4)
     (.unary .minus (.unary .minus (.ident 2)))
 
 example : WF sample := by simp [sample, WF, WFArgs]
+example : Plain sample := by simp [sample, Plain, PlainArgs, isOperator, Expr.prec?, callParens, Expr.unaryOp?]
 
 example : print sample =
-    [.lparen, .ident 0, .op .minus, .lparen, .ident 1, .op .minus, .int 2, .rparen, .rparen,
-     .lparen, .ident 1, .comma, .ident 2, .lbrack, .int 3, .rbrack, .ellipsis, .rparen,
+    [.lparen, .op .star, .ident 0, .rparen, .lparen, .ident 1, .op .minus, .lparen, .ident 1, .op .minus,
+     .int 2, .rparen, .comma, .ident 2, .lbrack, .int 3, .rbrack, .ellipsis, .rparen,
      .period, .ident 4, .op .star, .op .minus, .lparen, .op .minus, .ident 2, .rparen] := by
-  simp [sample, print, printArgs, wrap, needs, isOperator, Expr.prec?, binToks, unTok]
   decide
 
 /-- the parser is not the constant function: precedence decides the grouping -/
